@@ -47,6 +47,9 @@ func concatSeq(v ssa.Value, depth int) (seq []catom, ok bool) {
 		}
 	case *ssa.MakeSlice:
 		if k, isK := x.Len.(*ssa.Const); isK && k.Value != nil {
+			if k.Value.ExactString() == "0" {
+				return nil, true // make([]byte, 0, n): empty, pre-sized
+			}
 			return []catom{{"0x" + k.Value.ExactString(), nil}}, true
 		}
 	case *ssa.BinOp:
@@ -58,6 +61,9 @@ func concatSeq(v ssa.Value, depth int) (seq []catom, ok bool) {
 			}
 		}
 	case *ssa.Slice:
+		if hk, isK := x.High.(*ssa.Const); isK && hk.Value != nil && hk.Value.ExactString() == "0" {
+			return nil, true // x[:0]: empty
+		}
 		if al, isA := x.X.(*ssa.Alloc); isA && x.Low == nil {
 			arr, isArr := al.Type().Underlying().(*types.Pointer).Elem().Underlying().(*types.Array)
 			if isArr {
